@@ -521,7 +521,9 @@ where
             // set yield_memory to the sentinel value O+2 so that the next step() call
             // will yield the value in self.state (the bdf step that was within
             // tolerance after these runge-kutta steps)
-            if self.yield_memory == 0 {
+            // (only if such a step was taken: start-up steps that reach the end of
+            // the interval are committed without one)
+            if self.yield_memory == 0 && self.time.real() > self.prev_values[get_item].0 {
                 self.yield_memory = O + 2;
             }
             return Ok(self.prev_values[get_item].clone());
@@ -538,6 +540,14 @@ where
                 .push_back((self.time.real(), self.state.clone()));
             self.prev_values.pop_front();
             return Ok((self.time.real(), self.state.clone()));
+        }
+
+        // A bdf step from unchecked runge-kutta steps would go past the end of
+        // the interval, so it can not be used to check them. Commit to them so
+        // that they are yielded before the solver finishes.
+        if self.yield_memory == O + 1 && self.time.real() + self.dt.real() >= self.end.real() {
+            self.yield_memory -= 1;
+            return Err(IVPStatus::Redo);
         }
 
         if self.time.real() >= self.end.real() {
